@@ -143,7 +143,7 @@ Section P.
   Lemma reachable_tinv h st t x :
     exec init_state h = Some st -> find_task t (tasks st) = Some x -> tinv x.
   Proof.
-    intros He Hf. assert (Hi : all_tinv st) by (eapply all_tinv_exec; [apply Forall_nil|exact He]).
+    intros He Hf. assert (Hi : all_tinv st) by (apply (all_tinv_exec h init_state st); [unfold all_tinv; cbn; constructor|exact He]).
     apply find_in in Hf. eapply Forall_forall in Hi; [|exact Hf]. exact Hi.
   Qed.
 
